@@ -35,6 +35,9 @@ type loadCase struct {
 	WithoutNull bool   `json:"without_null"`
 	JQ          string `json:"jq"`
 	Origin      string `json:"origin"` // how the bytes were made (label only)
+	// CPU: @@CPU of the session (0 = 1). With more than one core the loaders pad / convert the
+	// records of inputs of 160 records and more in several goroutines.
+	CPU int `json:"cpu,omitempty"`
 }
 
 var formats = []string{"CSV", "TSV", "LTSV", "FIXED", "JSON", "JSONL"}
@@ -480,6 +483,10 @@ func genLoad(t *rapid.T) loadCase {
 		if fw.Pct(t, "manyRows", 4) {
 			nrow = fw.PickU(t, "manyRowsN", []int{299, 300, 301, 650})
 		}
+		if fw.Pct(t, "splitRows", 5) {
+			// around the sizes at which csvq divides records between 2, 3, 4 goroutines (80 per core)
+			nrow = fw.PickU(t, "splitRowsN", []int{159, 160, 161, 239, 240, 241, 320, 321})
+		}
 		var header []string
 		if !c.NoHeader || c.Format == "LTSV" || c.Format == "JSON" || c.Format == "JSONL" {
 			header = make([]string, ncol)
@@ -578,7 +585,19 @@ func genLoad(t *rapid.T) loadCase {
 	if len(c.Data) > maxDataLen() {
 		c.Data = c.Data[:maxDataLen()]
 	}
+	// several cores: mostly for inputs long enough to be divided between goroutines
+	cpuPct := 15
+	if lineCount(c.Data) >= 160 {
+		cpuPct = 65
+	}
+	if fw.Pct(t, "cpuSet", cpuPct) {
+		c.CPU = fw.PickU(t, "cpu", []int{2, 3, 4, 16})
+	}
 	return c
+}
+
+func lineCount(b []byte) int {
+	return bytes.Count(b, []byte("\n")) + bytes.Count(b, []byte("\r")) + bytes.Count(b, []byte("},"))
 }
 
 func (c loadCase) fileName() string { return "t" + c.Ext }
@@ -737,9 +756,25 @@ func checkLoad(c loadCase) (fw.Outcome, *fw.Violation) {
 			o.Classes = append(o.Classes, "origin:"+part)
 		}
 	}
+	if c.CPU > 1 {
+		o.Classes = append(o.Classes, "cpu>1")
+	}
+	if c.Format == "JSONL" && c.JQ != "" {
+		// a row for which the json-query selects an empty array (documented error or a rectangular table)
+		key := c.JQ
+		if i := strings.IndexAny(key, "{["); i >= 0 {
+			key = key[:i]
+		}
+		if i := strings.LastIndex(key, "."); i >= 0 {
+			key = key[i+1:]
+		}
+		if key != "" && bytes.Contains(c.Data, []byte(`"`+key+`":[]`)) {
+			o.Classes = append(o.Classes, "jsonl_query_selects_empty_array")
+		}
+	}
 	sql, shown := c.program()
 	dir := loadScratch()
-	opt := run.Opt{Dir: dir}
+	opt := run.Opt{Dir: dir, CPU: c.CPU}
 	path := ""
 	switch c.Via {
 	case "stdin":
@@ -773,7 +808,7 @@ func checkLoad(c loadCase) (fw.Outcome, *fw.Violation) {
 			}
 		}
 	})
-	what := fmt.Sprintf("%s\nformat=%s via=%s options: %s\ndata (%d bytes): %q", shown, c.Format, c.Via, c.optClass(), len(c.Data), clip(string(c.Data), 400))
+	what := fmt.Sprintf("%s\nformat=%s via=%s cpu=%d options: %s\ndata (%d bytes): %q", shown, c.Format, c.Via, c.CPU, c.optClass(), len(c.Data), clip(string(c.Data), 400))
 	if res.ParseErr {
 		return o, fw.Harness("generated load program does not parse: %v\n%s", res.Err, clip(shown, 600))
 	}
@@ -793,6 +828,11 @@ func checkLoad(c loadCase) (fw.Outcome, *fw.Violation) {
 			o.Classes = append(o.Classes, "loaded>=2")
 			o.Fingerprint = fmt.Sprintf("%s|%s|%s|loaded|w%d", c.Format, c.Via, c.optClass(), min(res.Fields, 4))
 		}
+		if c.CPU > 1 && res.Records >= 160 {
+			// the loader's per-record work (padding of short records, JSON conversion) was divided between goroutines
+			o.Classes = append(o.Classes, "loaded_in_goroutines")
+			o.Fingerprint += "|split"
+		}
 	case res.Err != nil:
 		o.Classes = append(o.Classes, "outcome=error:"+class)
 		if rejectionNumbers[class] && (bytes.Count(c.Data, []byte("\n"))+bytes.Count(c.Data, []byte("\r"))+bytes.Count(c.Data, []byte("},")) >= 2) {
@@ -807,7 +847,7 @@ func TestC19LoadData(t *testing.T) {
 	fw.Run(t, fw.Spec[loadCase]{
 		ID: "C19", Name: "load_data", Quick: 100000, Thorough: 2000000,
 		Gen: genLoad, Check: checkLoad,
-		Rule: "bytes = {cell grid rendered as CSV/TSV/LTSV/FIXED/JSON/JSONL (quoted or sloppy, LF/CRLF/CR, ragged rows, odd names, 0..650 rows) | a /repo/testdata/csv seed | random bytes | random text over the parsers' special characters}, then 0-3 mutations (truncate, duplicated/inserted quote, stray CR/LF/NUL/quote/delimiter, invalid UTF-8, BOMs, 5 000 / 70 000 byte runs, dropped/added field, delete, repeated splice, line-break rewrite, UTF-16 transcoding, garbage tail, 299..700 inserted rows) x option vector (delimiter incl. quote/newline/multi-byte/invalid, delimiter positions incl. SPACES, S[...], unsorted/negative/huge/malformed, encoding AUTO/UTF8[M]/UTF16[BE|LE][M]/SJIS/invalid, no-header, allow-uneven-fields, without-null, json-query from a list of valid and malformed queries) x way of loading (STDIN, file + import flags, FMT(.., DATA::(..)), FMT(.., `file`), FMT(.., INLINE::(file))). Oracle: Execute returns (20 s watchdog, re-tried once with 80 s), no panic escapes, no *query.FatalError, error code documented, every result view and the cached/stdin table itself is rectangular. non-trivial = >=2 records loaded, or a data-level rejection of bytes with >=2 line/record separators; distinct by (format, way, option-vector class, outcome, width)",
+		Rule: "bytes = {cell grid rendered as CSV/TSV/LTSV/FIXED/JSON/JSONL (quoted or sloppy, LF/CRLF/CR, ragged rows, odd names, 0..650 rows) | a /repo/testdata/csv seed | random bytes | random text over the parsers' special characters}, then 0-3 mutations (truncate, duplicated/inserted quote, stray CR/LF/NUL/quote/delimiter, invalid UTF-8, BOMs, 5 000 / 70 000 byte runs, dropped/added field, delete, repeated splice, line-break rewrite, UTF-16 transcoding, garbage tail, 299..700 inserted rows) x option vector (delimiter incl. quote/newline/multi-byte/invalid, delimiter positions incl. SPACES, S[...], unsorted/negative/huge/malformed, encoding AUTO/UTF8[M]/UTF16[BE|LE][M]/SJIS/invalid, no-header, allow-uneven-fields, without-null, json-query from a list of valid and malformed queries) x way of loading (STDIN, file + import flags, FMT(.., DATA::(..)), FMT(.., `file`), FMT(.., INLINE::(file))) x @@CPU of the session (1, or 2/3/4/16 in 15% of the cases and in 65% of those with 160 lines and more; row counts 159..321 around the 80-records-per-core split points) so that the loaders' per-record padding / conversion runs in several goroutines. Oracle: Execute returns (20 s watchdog, re-tried once with 80 s), no panic escapes, no *query.FatalError, error code documented, every result view and the cached/stdin table itself is rectangular. non-trivial = >=2 records loaded, or a data-level rejection of bytes with >=2 line/record separators; distinct by (format, way, option-vector class, outcome, width, loaded in several goroutines)",
 		Assumptions: []string{
 			"program text is UTF-8: bytes given through DATA::('...') pass through the SQL scanner, which replaces invalid UTF-8 by U+FFFD (the file and stdin ways carry the raw bytes)",
 			"an error that is not a csvq error type is accepted (the CLI maps it to exit code 1) unless its text shows a Go runtime failure",
